@@ -1457,7 +1457,7 @@ func checkC04(c *ctx) {
 	var impl []string
 	nCases := 90
 	if c.thorough() {
-		nCases = 2500
+		nCases = 900 // ~10x quick, with ~2.5x the queries per case: 15-25 min
 	}
 	kinds := []string{"bai", "csi", "tbx"}
 	// fixed corpus first: the shapes of the defects found by earlier runs
@@ -1478,7 +1478,7 @@ func checkC04(c *ctx) {
 	}
 	nReal := 12
 	if c.thorough() {
-		nReal = 300
+		nReal = 120
 	}
 	for i := 0; i < nReal; i++ {
 		g.realBamCase(c, d, &impl)
